@@ -101,3 +101,74 @@ Definition c04_accepts (E : env) (l : lit) (t : sty) (allow : bool) : bool :=
 (** the two transcriptions of validateCoercion agree on this literal at this type *)
 Definition bridge_agrees (E : env) (dt : bytes -> option bytes) (l : lit) (t : sty) : bool :=
   Bool.eqb (c04_accepts E l t true) (validate_coercion E dt l t true).
+
+(** ** the document level: a whole C05 request as a C04 schema and document, so that C04's
+    ValidateDocument model ([validate_model_memo repaired id_order]: NewTypeInfo and all eight rule
+    groups) can be run on it.  The request is  query Q(defs) { f(args) }  against  f(argdefs): Int
+    (site "field"),  { g @flt(args) }  with  directive @flt(argdefs) on FIELD  (site "directive"),
+    or  { g @skip/@include(args) }. *)
+Definition pp (l c : N) : Ast.pos := (l, c).
+
+Fixpoint tr_ty (t : sty) (p : Ast.pos) : Ast.ty :=
+  match t with
+  | StNamed n => Ast.TNamed n p
+  | StList t' => Ast.TList (tr_ty t' p) p
+  | StNonNull t' => Ast.TNonNull (tr_ty t' p)
+  end.
+
+Definition tr_vardef (i : N) (d : vardef) : Ast.vardef :=
+  {| Ast.vd_ann := None; Ast.vd_name := vd_name d; Ast.vd_dollar := pp 1 (10 + 2 * i)%N; Ast.vd_npos := pp 1 (11 + 2 * i)%N;
+     Ast.vd_type := tr_ty (vd_type d) (pp 2 (10 + i)%N);
+     Ast.vd_default := option_map tr_lit (vd_default d) |}.
+
+Fixpoint tr_vardefs (i : N) (defs : list vardef) : list Ast.vardef :=
+  match defs with
+  | [] => []
+  | d :: r => tr_vardef i d :: tr_vardefs (i + 1)%N r
+  end.
+
+Fixpoint tr_args (i : N) (args : list (name * lit)) : list Ast.argument :=
+  match args with
+  | [] => []
+  | (n, l) :: r => {| Ast.a_name := n; Ast.a_pos := pp 3 (10 + i)%N; Ast.a_value := tr_lit l |} :: tr_args (i + 1)%N r
+  end.
+
+Definition tr_argdefs (argdefs : list (name * in_def)) : list (Ast.name * Ast.input_def) :=
+  map (fun f : name * in_def => (fst f, tr_indef (snd f))) argdefs.
+
+Definition n_Query : name := [81; 117; 101; 114; 121]%N.
+Definition n_Int : name := [73; 110; 116]%N.
+Definition n_Boolean : name := [66; 111; 111; 108; 101; 97; 110]%N.
+
+(** [site]: "field", "directive", "skip" or "include" *)
+Definition tr_request_schema (E : env) (site_field : bool) (argdefs : list (name * in_def)) : Ast.schema :=
+  let int_t := Ast.StNamed n_Int in
+  let fld (a : list (Ast.name * Ast.input_def)) := {| Ast.f_type := int_t; Ast.f_args := a; Ast.f_req := [] |} in
+  let q := Ast.TObject [ ([102]%N, fld (if site_field then tr_argdefs argdefs else []));
+                          ([103]%N, fld []) ] [] in
+  let dir := {| Ast.dd_args := if site_field then [] else tr_argdefs argdefs; Ast.dd_locs := [Ast.LField] |} in
+  {| Ast.s_types := Ast.s_types (tr_env E)
+                    ++ [ (n_Query, {| Ast.t_req := []; Ast.t_body := q |});
+                         (n_Int, {| Ast.t_req := []; Ast.t_body := Ast.TScalar Ast.SInt |}) ];
+     Ast.s_query := n_Query; Ast.s_mutation := None; Ast.s_subscription := None;
+     Ast.s_directives := [ ([102; 108; 116]%N, dir); ([115; 107; 105; 112]%N, dir); ([105; 110; 99; 108; 117; 100; 101]%N, dir) ];
+     Ast.s_meta := []; Ast.s_impls := [] |}.
+
+Definition tr_request_doc (dname : option name) (defs : list vardef) (args : list (name * lit)) : Ast.document :=
+  let a := tr_args 0 args in
+  let sel := match dname with
+             | None => Ast.SField None None ([102]%N) (pp 4 1) a [] None
+             | Some d => Ast.SField None None ([103]%N) (pp 4 1) []
+                           [ {| Ast.d_name := d; Ast.d_npos := pp 4 4; Ast.d_at := pp 4 3; Ast.d_args := a |} ] None
+             end in
+  [ Ast.DOp (Some ([113; 117; 101; 114; 121]%N, pp 1 1)) (Some ([81]%N, pp 1 7)) (tr_vardefs 0 defs) []
+            (Ast.SelSet None [sel] (pp 4 0)) ].
+
+(** C04's ValidateDocument accepts the request *)
+Definition c04_document_accepts (E : env) (site_field : bool) (dname : option name)
+           (argdefs : list (name * in_def)) (defs : list vardef) (args : list (name * lit)) : bool :=
+  match ValidatorModel.validate_model_memo ValidatorModel.repaired ValidatorModel.id_order
+          (tr_request_schema E site_field argdefs) [] (tr_request_doc dname defs args) with
+  | Ast.Done [] => true
+  | _ => false
+  end.
